@@ -63,7 +63,7 @@ def bounds(tier):
 
 
 def shards(tier):
-    return [("first", i) for i in range(len(CAT))] + [("two_parts", i) for i in range(len(CAT))] + [("leak", 0)] + [("big", n, v) for n in (bigdocs.SIZES_QUICK if tier == "quick" else bigdocs.SIZES_THOROUGH) for v in (0, 1)]
+    return [("first", i) for i in range(len(CAT))] + [("two_parts", i) for i in range(len(CAT))] + [("leak", 0), ("lengths", 0)] + [("big", n, v) for n in (bigdocs.SIZES_QUICK if tier == "quick" else bigdocs.SIZES_THOROUGH) for v in (0, 1)]
 
 
 def strip1(v):
@@ -215,7 +215,50 @@ def check_two_parts(first, acc):
                 )
 
 
+LENGTHS = {"quick": [1, 2, 15, 16, 17, 31, 32, 33, 63, 64, 65, 127, 128, 129, 255, 256, 257, 1023, 1024, 1025, 4095, 4096, 4097], "thorough": [1, 2, 15, 16, 17, 31, 32, 33, 63, 64, 65, 127, 128, 129, 255, 256, 257, 1023, 1024, 1025, 4095, 4096, 4097, 65535, 65536, 65537, 1 << 20]}
+
+
+def check_lengths(acc, tier):
+    """String names, contents and field keys of every length on the ladder (around the powers of two a threshold would be
+    set at): a bare name of that length resolves to the content of that length; the look-alikes next to it do not."""
+    for n in LENGTHS[tier]:
+        name = ("n" * (n - 1) + "X")[:n]
+        content = "c" * n
+        fkey = "f" * n
+        for defined_first in (True, False):
+            sdef = f'@string{{{name} = "{content}"}}'
+            entry = f"@a{{e, {fkey} = {name}, g = {{{name}}}, h = {name}z, i = {name.lower()}q, j = \"{name}\", k = {name} # {name}}}"
+            text = (sdef + "\n" + entry) if defined_first else (entry + "\n" + sdef)
+            case = {"length": n, "defined_first": defined_first}
+            acc.trace()
+            acc.case(nontrivial_key=("length", n, defined_first))
+            acc.count("length_documents")
+            try:
+                lib = bibtexparser.parse_string(text)
+            except Exception as e:
+                acc.exception(e, case, "parse_string", size=n)
+                continue
+            ents = lib.entries
+            got = [(f.key, f.value) for f in ents[0].fields] if len(ents) == 1 else None
+            exp = [(fkey, content), ("g", name), ("h", name + "z"), ("i", name.lower() + "q"), ("j", name), ("k", f"{name} # {name}")]
+            acc.step(("length", n), defined_first, hash(repr(got)))
+            if got != exp:
+                d = next((i for i, (a, b) in enumerate(zip(got or [], exp)) if a != b), None)
+                acc.violation(
+                    {"oracle": "field_values_after_resolution", "form": "names and contents of every length", "kind": "differs"},
+                    {"case": case, "observed": None if got is None else [(k[:20], v[:20], len(v)) for k, v in got[:6]], "expected": [(k[:20], v[:20], len(v)) for k, v in exp], "first_differing_field": d},
+                    size=n,
+                )
+                continue
+            meta = ents[0].parser_metadata.get("ResolveStringReferences")
+            strs = [(b.key, b.value) for b in lib.strings]
+            if meta != [fkey] or strs != [(name, content)]:  # (the default stack also strips the string's own enclosing: C10)
+                acc.violation({"oracle": "resolved_field_keys_recorded"}, {"case": case, "observed": [repr(meta)[:80], repr(strs)[:80]], "expected": "the one resolved field key; the @string unchanged"}, size=n)
+
+
 def run_shard(shard, tier, acc):
+    if shard[0] == "lengths":
+        return check_lengths(acc, tier)
     if shard[0] == "two_parts":
         return check_two_parts(shard[1], acc)
     if shard[0] == "big":
@@ -269,6 +312,8 @@ def run_shard(shard, tier, acc):
 
 
 def replay(case, acc):
+    if "length" in case:
+        return check_lengths(acc, "quick" if case["length"] <= 4097 else "thorough")
     if "big" in case:
         return run_shard(("big", case["big"][0], case["big"][1]), "quick", acc)
     if "leak" in case:
